@@ -252,6 +252,19 @@ class Interp:
                 self.bind(q, v, node)
         elif k in ("PRef", "PDeref"):
             self.bind(pat["p"], val, node)
+        elif k == "PSlice" and "mid" not in pat and isinstance(val, (list, tuple)) and len(val) == len(pat.get("before") or []) + len(pat.get("after") or []):
+            for q, v in zip(list(pat.get("before") or []) + list(pat.get("after") or []), val):
+                self.bind(q, v, node)
+        elif k == "PStruct" and isinstance(val, dict):
+            for f in pat["fields"]:
+                if f["name"] not in val:
+                    raise Unsupported(node or pat, "no field %s to destructure" % f["name"])
+                self.bind(f["pat"], val[f["name"]], node)
+        elif k == "PStruct" and isinstance(val, sp.Symbol) and not (pat.get("def") or "").endswith(("::Some", "::Ok", "::Err")):
+            # destructuring an abstract struct (a parameter): its fields are the symbols `name.field` (as ev_Field names them)
+            for f in pat["fields"]:
+                pl = "%s.%s" % (val.name, f["name"])
+                self.bind(f["pat"], self.fields.setdefault(pl, self.sym(pl)), node)
         elif k in ("PTupleStruct",) and len(pat["ps"]) == 1 and isinstance(val, Variant) and len(val.args) == 1:
             self.bind(pat["ps"][0], val.args[0], node)
         elif k == "PStruct" and len(pat["fields"]) == 1 and isinstance(val, Variant) and len(val.args) == 1:
@@ -438,6 +451,14 @@ class Interp:
 
     def ev_Index(self, n):
         base = self.ev(n["e"])
+        ixp = peel(n["i"])
+        if isinstance(base, (list, tuple)) and ixp.get("k") == "Struct" and "ops::Range" in (ixp.get("def") or ""):
+            # `xs[..k]`, `xs[a..b]`, `xs[a..]`, `xs[..]` of a concrete sequence
+            f_ = {x["name"]: self.ev(x["e"]) for x in ixp.get("fields", [])}
+            lo, hi = f_.get("start", sp.Integer(0)), f_.get("end", sp.Integer(len(base)))
+            if getattr(lo, "is_Integer", False) and getattr(hi, "is_Integer", False) and 0 <= int(lo) <= int(hi) <= len(base):
+                return list(base[int(lo):int(hi)])
+            raise Unsupported(n, "slice %s..%s of a sequence of length %d" % (lo, hi, len(base)))
         idx = self.ev(n["i"])
         if isinstance(base, (list, tuple)) and getattr(idx, "is_Integer", False):
             return base[int(idx)]
@@ -565,6 +586,13 @@ class Interp:
             raise Unsupported(n, "vec! shape")
         if d in self.lazy_hooks:
             return self.lazy_hooks[d](self, n)
+        if d in ("std::fmt::format", "alloc::fmt::format", "std::fmt::Arguments::<'a>::new_v1", "core::fmt::Arguments::<'a>::new_v1") or n.get("mac") in ("format", "format_args"):
+            return Opaque("formatted string")
+        if d in ("std::hint::must_use", "core::hint::must_use") and len(n["args"]) == 1:
+            inner = n["args"][0]
+            if any(x.get("k") == "Call" and ((callee(x) or "").startswith(("std::fmt::", "alloc::fmt::", "core::fmt::"))) for x in walk(inner)):
+                return Opaque("formatted string")
+            return self.ev(inner)
         if d in ("std::mem::replace", "core::mem::replace", "std::mem::take", "core::mem::take", "std::mem::swap", "core::mem::swap") and n["args"]:
             # mem::replace(&mut place, v) / mem::take(&mut place) / mem::swap(&mut a, &mut b): reads and writes of the places
             tgt = peel_ref_mut(n["args"][0])
